@@ -33,7 +33,7 @@ fn floors(_t: Tier) -> Vec<(&'static str, u64)> {
     vec![("evaluations", 8_000), ("refusals_observed", 200), ("softmax_rows_monitored", 300), ("elements_compared", 50_000)]
 }
 
-const FUNCS: u64 = 31;
+const FUNCS: u64 = 32;
 const POWF_EXP: [f64; 8] = [-2.0, -1.0, -0.5, 0.5, 1.0, 2.0, 3.0, 3.5];
 
 fn check_value(ctx: &mut Ctx, name: &str, d: &[usize], vals_in: &[f64], kind: &OpKind, exact: bool) {
@@ -297,6 +297,12 @@ pub fn run_case(ctx: &mut Ctx, fam: &str, k: u64, r: &mut Rng) {
             let lim = if IS_F32 { 126 } else { 1022 };
             let v: Vec<f64> = (0..n).map(|_| (2.0f64).powi(r.int(-(lim as i64), lim as i64) as i32) * if r.chance(1, 2) { -1.0 } else { 1.0 }).collect();
             check_value(ctx, "reciprocal", &d, &v, &OpKind::Recip, false)
+        }
+        31 => {
+            name = "sigmoid-extreme".into();
+            let ext: &[f64] = if IS_F32 { &[-200.0, -104.0, -90.0, -30.0, 30.0, 90.0, 200.0] } else { &[-2000.0, -746.0, -710.0, -90.0, -30.0, 30.0, 710.0, 2000.0] };
+            let v: Vec<f64> = (0..n).map(|_| *r.pick(ext)).collect();
+            check_value(ctx, "sigmoid", &d, &v, &OpKind::Sigmoid, false)
         }
         _ => {
             name = "sigmoid-wide".into();
